@@ -1445,6 +1445,7 @@ fn crowd(st: &mut SeqStats, fl: Flavour, mode: usize, k: usize) {
         "sinks-parked-then-lagging-stream-dropped",
         "stream-task-parked-then-many-polls-of-another-task-then-send",
         "sink-task-parked-then-many-refused-sends-of-another-task-then-receive",
+        "sinks-parked-then-last-receiver-unsubscribed",
     ];
     if fl == Flavour::M && matches!(mode, 0 | 2 | 6 | 7 | 8) {
         return; // one stream only
@@ -1454,7 +1455,7 @@ fn crowd(st: &mut SeqStats, fl: Flavour, mode: usize, k: usize) {
         "{}-fut|{}|{}",
         if fl == Flavour::B { "bcast" } else { "mpmc" },
         modes[mode],
-        if mode >= 8 {
+        if mode == 8 || mode == 9 {
             if k * 4 >= 32 { "32-or-more-repeats" } else { "fewer-than-32-repeats" }
         } else if k + (mode < 3) as usize > 8 {
             "more-than-8-parked"
@@ -1656,13 +1657,15 @@ fn crowd(st: &mut SeqStats, fl: Flavour, mode: usize, k: usize) {
                 }
             }
             let _ = rt::take_seq_notifies();
+            let last_leaves = mode == 4 || mode == 10;
             let ev = match mode {
                 3 => op(TryRecv, 1),
                 4 => op(DropH, 1),
+                10 => opv(Unsub, 1, 1),
                 _ => op(PollS, 1),
             };
-            let r = run(ev);
-            if mode != 4 && r != Some(Res::Val(7)) {
+            let r = run(if ev.k == Unsub { op(Unsub, 1) } else { ev });
+            if !last_leaves && r != Some(Res::Val(7)) {
                 problems.push(("C15", format!("{:?} on a full queue gave {:?}", ev.k, r)));
             }
             let notes = rt::take_seq_notifies();
@@ -1673,7 +1676,7 @@ fn crowd(st: &mut SeqStats, fl: Flavour, mode: usize, k: usize) {
                     extra.len(), ev.k, missing, notes
                 );
                 problems.push(("C14", d.clone()));
-                if mode == 4 {
+                if last_leaves {
                     problems.push(("C13", d));
                 }
             }
@@ -1682,12 +1685,12 @@ fn crowd(st: &mut SeqStats, fl: Flavour, mode: usize, k: usize) {
                 let v = 20 + i as u32;
                 let r = run(opv(StartSend, h, v));
                 let ok = match mode {
-                    4 => r == Some(Res::SinkErr(v)),
+                    4 | 10 => r == Some(Res::SinkErr(v)),
                     _ => (i == 0 && r == Some(Res::Ready)) || (i > 0 && r == Some(Res::NotReadyMsg(v))),
                 };
                 if !ok {
                     problems.push((
-                        if mode == 4 { "C13" } else { "C15" },
+                        if last_leaves { "C13" } else { "C15" },
                         format!("retry of start_send #{} after {:?} gave {:?}", i, ev.k, r),
                     ));
                 }
@@ -2046,7 +2049,7 @@ pub fn main(prop: &str, tier: Tier, si: usize, sk: usize) {
     if matches!(prop, "C14" | "C07" | "C13" | "C15" | "C11") {
         let mut j = 0;
         for fl in [Flavour::B, Flavour::M] {
-            for mode in 0..10 {
+            for mode in 0..11 {
                 for k in 1..=12usize {
                     j += 1;
                     if j % sk != si {
